@@ -47,6 +47,11 @@ SINGLE_SIGNAL = [('emd.sift.sift', 'ensure_1d_with_singleton', 'X'), ('emd.sift.
                  ('emd.cycles.get_cycle_stat', 'ensure_vector', 'values'), ('emd.cycles.bin_by_phase', 'ensure_vector', 'ip'),
                  ('emd.cycles.get_control_points', 'ensure_vector', 'x'),
                  ('emd.spectra.frequency_transform', 'ensure_2d', 'imf')]
+MULTI_CTX = {'emd.spectra.hilberthuang': {'mode': 'energy', 'return_sparse': False},
+             'emd.spectra.holospectrum': {'mode': 'energy', 'squash_time': 'sum'},
+             'emd.cycles.phase_align': {'mode': 'cycle', 'ii': None},
+             'emd.cycles.bin_by_phase': {'weights': None, 'bin_edges': None, 'variance_metric': 'variance'},
+             'emd.cycles.get_cycle_vector': {'return_good': False}}
 MULTI_ARRAY = [('emd.spectra.hilberthuang', {'infr', 'inam'}), ('emd.spectra.holospectrum', {'infr', 'infr2', 'inam2'}),
                ('emd.cycles.phase_align', {'ip', 'x'}), ('emd.cycles.bin_by_phase', {'ip', 'x'}),
                ('emd.cycles.get_cycle_vector', {'phase', 'mask'})]
@@ -175,6 +180,9 @@ def rule_no_mutation(ctx, rid):
             if mname == 'emd.sift' and parts[-1] in ('_sift_with_noise', '_find_extrema', '_energy_difference',
                                                      '_array_or_tuple_to_list', '_get_function_opts'):
                 public = True                 # helpers on every public path
+            from ..paths import known_functions
+            if q.split('.')[-1].startswith('_') and fi.qualname not in known_functions():
+                public = False        # private helpers introduced later: covered through their callers' summaries
             if not public:
                 continue
             n += 1
@@ -201,13 +209,19 @@ def rule_length_checks(ctx, rid):
     for q, names in MULTI_ARRAY:
         fi = P.func(q)
         c = 'ensure_equal_dims is applied to %s' % ', '.join(sorted(names))
-        ok = False
-        for cnode in P.calls_in(fi):
-            ca = P.resolve_callee(fi.module, fi, cnode.func)
-            if ca.dotted == 'emd.support.ensure_equal_dims' and cnode.args:
-                got = {n.id for n in ast.walk(cnode.args[0]) if isinstance(n, ast.Name)}
-                if got >= names:
-                    ok = True
+        from .common import dim_checks
+        from ..paths import State
+        ctxs = MULTI_CTX.get(q, {})
+        per_path = dim_checks(P, fi, ctxs)
+        relevant = [calls for calls in per_path]
+        if q == 'emd.cycles.get_cycle_vector':
+            # the mask check applies on the paths where a mask is given
+            relevant = [calls for calls in per_path if any('mask' in nm for f, nm, d in calls)] or per_path[:0]
+            ok = bool(relevant) and all(any(f == 'ensure_equal_dims' and nm >= names for f, nm, d in calls)
+                                        for calls in relevant)
+        else:
+            ok = bool(relevant) and all(any(f == 'ensure_equal_dims' and nm >= names for f, nm, d in calls)
+                                        for calls in relevant)
         if ok:
             ctx.passed(rid, fi, c)
         else:
